@@ -160,6 +160,9 @@ pub fn run(ctx: &mut Ctx) {
         let mut r = ctx.rng.fork();
         let s = random_string(&mut r, 40);
         check_one(ctx, &s);
+        // the same text behind / in front of / around one special code point (a tokenizer must not trim, skip or normalise anything)
+        if s.chars().count() <= 12 { let c = loop { let c = random_char(&mut r); if (c as u32) >= 0x7f || (c as u32) < 0x20 { break c; } };
+            check_one(ctx, &format!("{c}{s}")); check_one(ctx, &format!("{s}{c}")); check_one(ctx, &format!("{c}{s}{c}")); }
     }
     for _ in 0..n { check_quoted(ctx); }
 }
